@@ -14,6 +14,7 @@ MCUBatches == {<<>>} \cup {<<e>> : e \in UE} \cup {<<e1, e2>> : e1 \in UE, e2 \i
 MCWBatches == {<<>>} \cup {<<e>> : e \in WE} \cup {<<e1, e2>> : e1 \in WE, e2 \in {<<<<3, 3>>, 2>>, <<<<6, 10>>, 1>>, <<<<NaN, 3>>, 2>>}}
 MCOps == {"NewEmpty", "Construct", "Fill", "FillN", "FindBin"}
 MCScaleArgs == {<<2, 1>>}
+MCCellArgs == {}
 MCRetCands == {NoneRet} \cup {<<i, j>> : i \in 0..2, j \in 0..2}
 MCProjAxes == {<<1>>}
 MCMergeArgs == {<<2, 1>>}
